@@ -27,9 +27,10 @@ KINDS = {
     'nb-then-answer': ('GET', '/nb/x', 't=tokNB'), 'nb-final': ('GET', '/nbonly', 't=tokNF'), 'boom-z': ('GET', '/boom/zed', 't=tokBZ'),
     'boom-y': ('GET', '/boom/why', 't=tokBY'), 'forbid-q': ('GET', '/forbid/que', 't=tokFQ'), 'forbid-r': ('POST', '/forbid/arr', 't=tokFR'),
     'redirect': ('GET', '/branch', 't=tokR'), 'ret404': ('GET', '/ret404/item9', 't=tokR4'), 'ctx': ('GET', '/ctx/cee', 't=tokC'),
+    'm2-get': ('GET', '/m2/7', 't=tokMG'), 'm2-post': ('POST', '/m2/8', 't=tokMP'), 'm2-put': ('PUT', '/m2/9', 't=tokMU'),
 }
 QUICK_PAIRS = [('ok-a', 'ok-b'), ('404', '405'), ('405', '404'), ('boom-z', 'boom-y'), ('forbid-q', 'forbid-r'), ('nb-then-answer', '404'),
-               ('redirect', 'ok-a'), ('nb-final', '405'), ('ret404', 'boom-z'), ('ctx', 'post'), ('int', 'nb-final'), ('404', '404')]
+               ('redirect', 'ok-a'), ('nb-final', '405'), ('ret404', 'boom-z'), ('ctx', 'post'), ('int', 'nb-final'), ('404', '404'), ('m2-put', 'm2-post'), ('m2-post', 'm2-put'), ('m2-get', 'm2-put')]
 IDS = []
 
 
@@ -89,7 +90,14 @@ def build(debug=False):
 
     def branch(request, tok, reqid, eptok, _dispatch_state):
         return Response(echo(request, tok, reqid, eptok, _dispatch_state))
-    routes = [Route('/h/<name>', h), Route('/n/<k:int>', n), POST('/p', p), Route('/nb/<v>', nb), Route('/nb/<v>', nb2), Route('/nbonly', nbonly),
+    from clastic import GET as GET_
+
+    def m2get(i, request, tok, reqid, eptok, _dispatch_state):
+        return Response('GET-endpoint ' + echo(request, tok, reqid, eptok, _dispatch_state, i=i))
+
+    def m2post(i, request, tok, reqid, eptok, _dispatch_state):
+        return Response('POST-endpoint ' + echo(request, tok, reqid, eptok, _dispatch_state, i=i))
+    routes = [GET_('/m2/<i>', m2get), POST('/m2/<i>', m2post), Route('/h/<name>', h), Route('/n/<k:int>', n), POST('/p', p), Route('/nb/<v>', nb), Route('/nb/<v>', nb2), Route('/nbonly', nbonly),
               Route('/boom/<what>', boom), Route('/forbid/<who>', forbid), Route('/ret404/<item>', ret404), Route('/ctx/<c>', ctx, render_basic),
               Route('/branch/', branch)]
     return Application(routes, middlewares=[Tok(), EpTok()], debug=debug)
